@@ -65,5 +65,63 @@ void h_norm(void) {
                 trusted=["cbmc 6.11 + DFCC, SAT back end"], replay=_replay)
 
 
+def _edge_unit():
+    """K24b: the edge-line branch of read_dimacs_from_file (`e`/`a` lines), loop-free.  sscanf enters through its contract for the format
+    "%c %d %d %lf": it converts the first k fields of the line and writes ONLY those arguments; the std::map of declared vertices holds the
+    keys 1..n with vertex i-1 (established by the `p` line branch); boost::add_edge appends to the edge list.  The line is described by ghosts:
+    it has nf in {3,4} fields after the letter - endpoints Fs, Ft and, if nf = 4, the weight Fw."""
+    log = []
+    text = X.src("include/parmcb/util.hpp")
+    blk = X.stmt_after(text, r"vertex_map\[i\] = boost::add_vertex\(graph\);", r"if\s*\(buffer\[0\] == 'a' \|\| buffer\[0\] == 'e'\)", "edge-line branch of read_dimacs_from_file")
+    body = blk[blk.index("{") + 1:blk.rindex("}")]
+    body = X.rewrite(body, [
+        (r"sscanf\(buffer, \"%c %d %d %lf\", &(\w+), &(\w+), &(\w+), &(\w+)\)", r"vp_sscanf(&\1, &\2, &\3, &\4)", 1, "container-api", "sscanf with this format -> its contract"),
+        (r"vertex_map\.find\((\w+)\) == vertex_map\.end\(\)", r"!MAPHAS((size_t) \1)", (1, 4), "container-api", "std::map::find on a size_t key (the int argument converts)"),
+        (r"throw std::system_error\(EIO, std::generic_category\(\), (\"[^\"]*\")\);", r"VP_THROW(\1);", (1, 4), "exceptions", ""),
+        (r"vertex_descriptor (\w+) = boost::vertex\(vertex_map\[(\w+)\], graph\);", r"size_t \1 = MAPAT((size_t) \2);", 2, "container-api", "map[key] for a present key; boost::vertex(i, g) = i (vecS)"),
+        (r"edge_descriptor (\w+) = boost::add_edge\((\w+), (\w+), graph\)\.first;", r"size_t \1 = vp_ne; E_S[vp_ne] = \2; E_T[vp_ne] = \3; vp_ne++;", 1, "container-api", "add_edge appends an edge, descriptor = ordinal"),
+        (r"weight\[(\w+)\] = (\w+);", r"E_W[\1] = \2;", 1, "container-api", "edge_weight property"),
+    ], log)
+    fn = r"""
+#include <stddef.h>
+#define MAXE 8
+size_t vp_n, vp_ne; size_t E_S[MAXE], E_T[MAXE]; double E_W[MAXE];
+int vp_nf, vp_Fs, vp_Ft; double vp_Fw;          /* ghost: the fields of the line */
+int vp_thrown;
+#define VP_THROW(msg) do { vp_thrown = 1; return; } while (0)
+#define MAPHAS(k) ((k) >= 1 && (k) <= vp_n)     /* std::map<size_t, vertex> with the keys 1..n */
+#define MAPAT(k) ((k) - 1)
+/* contract of sscanf(buffer, "%%c %%d %%d %%lf", &fc, &rs, &rt, &rw) on a line with vp_nf numeric fields: returns 1 + vp_nf conversions and
+   writes exactly the converted arguments */
+int vp_sscanf(char *fc, int *rs, int *rt, double *rw)
+__CPROVER_requires(__CPROVER_w_ok(fc, 1) && __CPROVER_w_ok(rs, sizeof(int)) && __CPROVER_w_ok(rt, sizeof(int)) && __CPROVER_w_ok(rw, sizeof(double)))
+__CPROVER_assigns(*fc, *rs, *rt, *rw)
+__CPROVER_ensures(__CPROVER_return_value == 1 + vp_nf && *rs == vp_Fs && *rt == vp_Ft)
+__CPROVER_ensures(vp_nf == 4 ? *rw == vp_Fw : *rw == __CPROVER_old(*rw))
+;
+void edge_line(void)
+__CPROVER_requires((vp_nf == 3 || vp_nf == 4) && vp_ne < MAXE && vp_n <= 1000000 && !vp_thrown && vp_Fw == vp_Fw)
+__CPROVER_assigns(vp_ne, vp_thrown, __CPROVER_object_whole(E_S), __CPROVER_object_whole(E_T), __CPROVER_object_whole(E_W))
+/* an edge naming an undeclared vertex (ids are 1..n) raises the error and adds nothing */
+__CPROVER_ensures(vp_thrown == !(vp_Fs >= 1 && (size_t) vp_Fs <= vp_n && vp_Ft >= 1 && (size_t) vp_Ft <= vp_n))
+__CPROVER_ensures(vp_thrown ==> vp_ne == __CPROVER_old(vp_ne))
+/* otherwise exactly one edge is appended: the named 1-based vertices, the given weight, 1 when omitted */
+__CPROVER_ensures(!vp_thrown ==> (vp_ne == __CPROVER_old(vp_ne) + 1 && E_S[__CPROVER_old(vp_ne)] == (size_t) vp_Fs - 1 && E_T[__CPROVER_old(vp_ne)] == (size_t) vp_Ft - 1
+                                  && E_W[__CPROVER_old(vp_ne)] == (vp_nf == 4 ? vp_Fw : 1.0)))
+{%s}
+int vp_in_nf, vp_in_Fs, vp_in_Ft; size_t vp_in_n;
+void h_edge(void) {
+  vp_in_nf = vp_nf; vp_in_Fs = vp_Fs; vp_in_Ft = vp_Ft; vp_in_n = vp_n;
+  edge_line();
+  __CPROVER_assert(0, "VP_REACH end of harness");
+}
+""" % body
+    return dict(unit="K24b_edge_line", lang="c", source="include/parmcb/util.hpp read_dimacs_from_file (branch for 'e' / 'a' lines)", text=fn, entry="h_edge", enforce="edge_line",
+                replace=["vp_sscanf"], mode="proof", bound="loop-free: every line with 3 or 4 fields, every int endpoint, every non-NaN weight, every n <= 10^6", rewrites=log, timeout=300,
+                dropped=["the surrounding loop and the other branches"], functions={"read_dimacs_from_file: edge-line branch": "proved"},
+                assumptions=["contract of sscanf for this format (converted fields written, others untouched); std::map holds the keys 1..n (p-line branch); add_edge appends; vecS descriptors"],
+                trusted=["cbmc 6.11 + DFCC, SAT back end"])
+
+
 def units(tier):
-    return [X.guarded("K24_line_normalisation", _unit)]
+    return [X.guarded("K24_line_normalisation", _unit), X.guarded("K24b_edge_line", _edge_unit)]
